@@ -266,6 +266,14 @@ def inputs_for(g: Grammar, rule: str, rnd: random.Random, n_sent=10, n_total=40,
                 seen.add(y)
                 out.append(y)
         n_total += 10
+        # a few very long inputs (hundreds of bytes): fixed-size tables / windows keyed by offset only show beyond their size
+        for s in sents[:2]:
+            if s:
+                z = trunc((s + rnd.choice(["", " "])) * (600 // max(1, len(s.encode("utf-8")))), 700)
+                if z not in seen:
+                    seen.add(z)
+                    out.append(z)
+        n_total += 2
     # random strings
     for _ in range(max(2, n_total // 10)):
         add("".join(rnd.choice(alpha) for _ in range(rnd.randint(1, 6))))
